@@ -28,11 +28,31 @@ from checks import c14            # Gallina printers for the gen_pkgs AST (ty_te
 
 COQ_MODS = "Gen.Alloc Gen.Types Gen.Render Gen.MethodSet Harness.C02"
 TEMPLATES = ("testify", "matryer")
-PLACEMENTS = ("in", "out")
+PLACEMENTS = ("in", "xt", "out")      # in-package _test.go file / same-directory external test package <src>_test / separate package
 PREFIX = {"testify": "Tf", "matryer": "Mt"}
 FILES = {("testify", "in"): "zz_mocks_tf_test.go", ("matryer", "in"): "zz_mocks_mt_test.go",
+         ("testify", "xt"): "zz_mocks_tf_x_test.go", ("matryer", "xt"): "zz_mocks_mt_x_test.go",
          ("testify", "out"): "mocks_tf.go", ("matryer", "out"): "mocks_mt.go"}
-ASSERT_FILE = {"in": "zz_c02_assert_test.go", "out": "zz_c02_assert.go"}
+ASSERT_FILE = {"in": "zz_c02_assert_test.go", "xt": "zz_c02_assert_x_test.go", "out": "zz_c02_assert.go"}
+SHADOW_FILE = "zz_c02_shadow_x_test.go"
+# Types of the external test package with the SAME NAMES as the source package's types that signatures
+# mention: a mock that loses the qualifier (`Local` instead of `src.Local`) still compiles against these
+# and is then not assignable to the interface.
+SHADOW_SRC = """// Code written by the C02 check; not part of mockery's output.
+package %s_test
+
+type Local struct{ Shadow string }
+type Key struct{ Shadow int }
+type LocalIface interface{ ShadowMethod() }
+type Pair[K comparable, V any] struct {
+	Shadow K
+	Other  V
+}
+type Gen[T any] interface{ ShadowGen() T }
+type AliasC = struct{ Shadow bool }
+type Fn func()
+type Num interface{ ~int8 }
+"""
 FUEL = 12
 
 # ---- names that the templates themselves use (C01's known-finding classes); parameters are renamed away from them
@@ -184,7 +204,7 @@ def plan(rng, mod):
                     if t in outside:
                         continue
                     for pl in PLACEMENTS:
-                        if pl == "out" and not nameable:
+                        if pl != "in" and not nameable:
                             continue
                         entries.append((t, pl, PREFIX[t] + i["name"], False))
                 # the grouping clause: further entries of the same interface in the same file
@@ -198,11 +218,11 @@ def plan(rng, mod):
 
 
 def skip_ensure(i, pl):
-    return bool(i["tparams"]) or pl == "out"
+    return bool(i["tparams"]) or pl != "in"
 
 
 def out_dir(root, m, pl):
-    return root / m["src"]["name"] if pl == "in" else root / "mocks" / m["src"]["name"]
+    return root / m["src"]["name"] if pl != "out" else root / "mocks" / m["src"]["name"]
 
 
 def config(mod, root):
@@ -220,6 +240,8 @@ def config(mod, root):
                 c = {"template": t, "structname": sname, "filename": FILES[(t, pl)]}
                 if pl == "in":
                     c["dir"], c["pkgname"] = "{{.InterfaceDir}}", m["src"]["name"]
+                elif pl == "xt":
+                    c["dir"], c["pkgname"] = "{{.InterfaceDir}}", m["src"]["name"] + "_test"
                 else:
                     c["dir"], c["pkgname"] = str(out_dir(root, m, "out")), "mk"
                 if t == "matryer":
@@ -332,11 +354,11 @@ def assertion_file(rng, m, pl):
         qual[p] = "zq%d" % n
         imports.append('\tzq%d "%s"' % (n, p))
     srcq = ""
-    if pl == "out":
+    if pl != "in":
         srcq = "zsrc"
         imports.append('\tzsrc "%s"' % m["src"]["path"])
     R = AssertRender(qual, srcq)
-    pkgname = m["src"]["name"] if pl == "in" else "mk"
+    pkgname = {"in": m["src"]["name"], "xt": m["src"]["name"] + "_test", "out": "mk"}[pl]
     head = ["// Code written by the C02 check; not part of mockery's output.", "package %s" % pkgname, ""]
     if imports and items:
         head += ["import ("] + imports + [")", ""]
@@ -384,7 +406,7 @@ def go_check(root):
         if not mm:
             continue
         d, f, ln, _, msg = mm.groups()
-        key = (d.split("/")[-1], "out" if d.startswith("mocks/") else "in")
+        key = (d.split("/")[-1], "out" if d.startswith("mocks/") else ("xt" if f.endswith("_x_test.go") else "in"))
         msg = re.sub(r'"[^"]*/([^"/]+)"\.', r"\1.", msg)
         e = (f, int(ln), msg)
         if e not in res.setdefault(key, []):
@@ -436,6 +458,8 @@ def process(ctx, mod, root, rng):
                 continue
             src, lines = assertion_file(rng, m, pl)
             (d / ASSERT_FILE[pl]).write_text(src)
+            if pl == "xt" and m.get("_shadow"):
+                (d / SHADOW_FILE).write_text(SHADOW_SRC % m["src"]["name"])
             res["lines"][(m["src"]["name"], pl)] = lines
     errs, raw = go_check(root)
     res["go_output_tail"] = raw[-1500:]
@@ -524,7 +548,7 @@ def obs_shapes(info, struct):
 
 def case_term(m, k, i, t, pl, s, wr, shapes):
     src = m["src"]["path"]
-    dst = src if pl == "in" else MOD + "/mocks/" + m["src"]["name"]
+    dst = src if pl != "out" else MOD + "/mocks/" + m["src"]["name"]
     return ("{| c_env := env%d; c_fuel := %d; c_pkg := %s; c_name := %s; c_tps := %s; c_names := names%d; c_dst := %s; c_inpkg := %s; "
             "c_struct := %s; c_tmpl := %s; c_resets := %s; c_obs := %s |}" % (
                 k, FUEL, cb(src), cb(i["name"]),
@@ -566,6 +590,7 @@ def restrict(mod, sname, iname=None, keep_methods=None, keep_embeds=None):
     for i in m2["ifaces"]:
         for k in [k for k in i if k.startswith("_")]:
             del i[k]
+    m2["_shadow"] = m.get("_shadow", False)
     m2["_only"] = iname if (iname is None or isinstance(iname, list)) else [iname]
     m2["_plan"] = {i["name"]: [list(e) for e in i["_entries"]] for i in m.get("_mock", [])} if "_mock" in m else m.get("_plan", {})
     if iname is not None and not isinstance(iname, list) and (keep_methods is not None or keep_embeds is not None):
@@ -605,7 +630,7 @@ def replan(mod, fail):
                     if t in outside:
                         continue
                     for pl in PLACEMENTS:
-                        if pl == "out" and not nameable:
+                        if pl != "in" and not nameable:
                             continue
                         ents.append((t, pl, PREFIX[t] + i["name"], False))
             i["_entries"] = ents
@@ -666,7 +691,7 @@ def strip(mod):
     """JSON-able copy without the harness' working fields"""
     def clean(x):
         if isinstance(x, dict):
-            return {k: clean(v) for k, v in x.items() if not k.startswith("_") or k in ("_only", "_plan")}
+            return {k: clean(v) for k, v in x.items() if not k.startswith("_") or k in ("_only", "_plan", "_shadow")}
         if isinstance(x, list):
             return [clean(v) for v in x]
         return x
@@ -736,7 +761,7 @@ def corpus_srcs():
     out = []
     for s in json.loads(f.read_text()):
         out.append({"mod": MOD, "src": {"path": MOD + "/" + s["name"], "name": s["name"]}, "ifaces": s["ifaces"], "ext": ext,
-                    "std": gen_pkgs.STD + gen_pkgs.C02_STD, "nonascii": False,
+                    "std": gen_pkgs.STD + gen_pkgs.C02_STD, "nonascii": False, "_shadow": True,
                     "extra_decls": list(gen_pkgs.foreign_extra_decls(ext)) + s.get("extra_decls", [])})
     return out
 
@@ -745,8 +770,13 @@ def stats(mod, hist):
     def bump(k, n=1):
         hist[k] = hist.get(k, 0) + n
     for m in mod["srcs"]:
+        bump("source packages whose external test package declares types named like the source package's" if m.get("_shadow") else "source packages without same-named types in the external test package")
         for i in m["_mock"]:
             bump("interfaces")
+            for pl in PLACEMENTS:
+                n = len([e for e in i["_entries"] if e[1] == pl])
+                if n:
+                    bump("mocks in placement %s" % {"in": "in-package _test.go", "xt": "same-directory <src>_test package", "out": "separate package"}[pl], n)
             if not i["_entries"]:
                 bump("interfaces outside the guarantee for both templates (own-API collision)")
                 continue
@@ -825,6 +855,8 @@ def check(ctx, only=None):
         modules = []
         for j in range(nmod):
             srcs = [gen_src(ctx.rng, k, renamed) for k in range(nsrc)]
+            for k, m in enumerate(srcs):
+                m["_shadow"] = k % 2 == 0      # every other external test package declares same-named types
             if j == 0:
                 srcs += corpus_srcs()
             mod = {"mod": MOD, "srcs": srcs}
